@@ -1,0 +1,111 @@
+//go:build verif
+
+package mem
+
+// Contracts for the mem plugin (C18, C01, C09), read by /verif's gvc (comment-only file).
+//
+// The emitted closure captures its memo state. Its contract is an invariant of
+// that state (o-closure-inv: every stored entry holds f's results for its key),
+// established where the closure is created and preserved by every call, plus
+// per-call clauses verified for an arbitrary later call (old() = start of the
+// call): the results are f's results for the arguments; f is not called when the
+// arguments were seen (an entry exists), at most once otherwise; afterwards an
+// entry exists; entries are never removed. "At most once per class of Equal
+// arguments over a call history" follows from these by induction over the
+// history (on paper). f is a deterministic function of the structure of its
+// arguments (result(i, f, args) is a function; for the hash-bucket path:
+// Equal arguments give equal results).
+
+//@ func (g *gen) Add(name string, typs []types.Type) (r string, err error)
+//@ param typs: len=0,1,2,3
+//@ param name: classes=Ident
+
+//@ func (g *gen) Generate(typs []types.Type) (err error)
+//@ param typs: len=1
+
+//@ func (g *gen) typeStrings(typs []types.Type) (r []string)
+//@ func vars(prefix string, num int) (r []string)
+//@ func zip(ss []string, rr []string) (r []string)
+
+//@ func (g *gen) genFunc(typ *types.Signature) (err error)
+//@ emits: decls
+//@ serves: mem len=1 kind=Signature typ=typs[0]
+//@ o-sig: (f $typ) (r $typ)
+//@ o-header: unchecked
+//@ o-requires: f != nil
+//@ o-closure: cr0 cr1 cr2
+// no parameters
+//@ o-closure-inv: when nparams(typ)=0 when nresults(typ)=1 [memo] memoized ==> res0 == result(0, f)
+//@ o-closure-inv: when nparams(typ)=0 when nresults(typ)=2 [memo] memoized ==> res0 == result(0, f) && res1 == result(1, f)
+//@ o-closure-inv: when nparams(typ)=0 when nresults(typ)=3 [memo] memoized ==> res0 == result(0, f) && res1 == result(1, f) && res2 == result(2, f)
+//@ o-closure-inv: when nparams(typ)=0 when nresults(typ)=0 [memo] memoized || !memoized
+//@ o-closure-ensures: when nparams(typ)=0 [once] (old(memoized) ==> traceLen() == 0) && (!old(memoized) ==> traceLen() == 1 && called(0, f)) && memoized
+//@ o-closure-ensures: when nparams(typ)=0 when nresults(typ)=1 [results] cr0 == result(0, f)
+//@ o-closure-ensures: when nparams(typ)=0 when nresults(typ)=2 [results] cr0 == result(0, f) && cr1 == result(1, f)
+//@ o-closure-ensures: when nparams(typ)=0 when nresults(typ)=3 [results] cr0 == result(0, f) && cr1 == result(1, f) && cr2 == result(2, f)
+// one ==-comparable parameter: map keyed by the argument
+//@ o-closure-inv: when nparams(typ)=1 when noneno(derive.IsComparable) when nresults(typ)=0 [memo] m != nil
+//@ o-closure-inv: when nparams(typ)=1 when noneno(derive.IsComparable) when nresults(typ)=1 [memo] m != nil && forall k val :: k in m ==> m[k] == result(0, f, k)
+//@ o-closure-inv: when nparams(typ)=1 when noneno(derive.IsComparable) when nresults(typ)=2 [memo] m != nil && forall k val :: k in m ==> m[k].Res0 == result(0, f, k) && m[k].Res1 == result(1, f, k)
+//@ o-closure-inv: when nparams(typ)=1 when noneno(derive.IsComparable) when nresults(typ)=3 [memo] m != nil && forall k val :: k in m ==> m[k].Res0 == result(0, f, k) && m[k].Res1 == result(1, f, k) && m[k].Res2 == result(2, f, k)
+//@ o-closure-ensures: when nparams(typ)=1 when noneno(derive.IsComparable) [once] (old(param0 in m) ==> traceLen() == 0) && (!old(param0 in m) ==> traceLen() == 1 && called(0, f, param0)) && param0 in m && forall k val :: old(k in m) ==> k in m
+//@ o-closure-ensures: when nparams(typ)=1 when noneno(derive.IsComparable) when nresults(typ)=1 [results] cr0 == result(0, f, param0)
+//@ o-closure-ensures: when nparams(typ)=1 when noneno(derive.IsComparable) when nresults(typ)=2 [results] cr0 == result(0, f, param0) && cr1 == result(1, f, param0)
+//@ o-closure-ensures: when nparams(typ)=1 when noneno(derive.IsComparable) when nresults(typ)=3 [results] cr0 == result(0, f, param0) && cr1 == result(1, f, param0) && cr2 == result(2, f, param0)
+// 2 ==-comparable parameters: map keyed by the struct of the arguments
+//@ o-closure-inv: when nparams(typ)=2 when noneno(derive.IsComparable) when nresults(typ)=0 [memo] m != nil
+//@ o-closure-inv: when nparams(typ)=2 when noneno(derive.IsComparable) when nresults(typ)=1 [memo] m != nil && forall k val :: k in m ==> m[k] == result(0, f, field(k, 0), field(k, 1))
+//@ o-closure-inv: when nparams(typ)=2 when noneno(derive.IsComparable) when nresults(typ)=2 [memo] m != nil && forall k val :: k in m ==> m[k].Res0 == result(0, f, field(k, 0), field(k, 1)) && m[k].Res1 == result(1, f, field(k, 0), field(k, 1))
+//@ o-closure-inv: when nparams(typ)=2 when noneno(derive.IsComparable) when nresults(typ)=3 [memo] m != nil && forall k val :: k in m ==> m[k].Res0 == result(0, f, field(k, 0), field(k, 1)) && m[k].Res1 == result(1, f, field(k, 0), field(k, 1)) && m[k].Res2 == result(2, f, field(k, 0), field(k, 1))
+//@ o-closure-ensures: when nparams(typ)=2 when noneno(derive.IsComparable) [once] (in in old(m) ==> traceLen() == 0) && (!(in in old(m)) ==> traceLen() == 1 && called(0, f, param0, param1)) && in in m && forall k val :: k in old(m) ==> k in m
+//@ o-closure-ensures: when nparams(typ)=2 when noneno(derive.IsComparable) when nresults(typ)=1 [results] cr0 == result(0, f, param0, param1)
+//@ o-closure-ensures: when nparams(typ)=2 when noneno(derive.IsComparable) when nresults(typ)=2 [results] cr0 == result(0, f, param0, param1) && cr1 == result(1, f, param0, param1)
+//@ o-closure-ensures: when nparams(typ)=2 when noneno(derive.IsComparable) when nresults(typ)=3 [results] cr0 == result(0, f, param0, param1) && cr1 == result(1, f, param0, param1) && cr2 == result(2, f, param0, param1)
+// 3 ==-comparable parameters: map keyed by the struct of the arguments
+//@ o-closure-inv: when nparams(typ)=3 when noneno(derive.IsComparable) when nresults(typ)=0 [memo] m != nil
+//@ o-closure-inv: when nparams(typ)=3 when noneno(derive.IsComparable) when nresults(typ)=1 [memo] m != nil && forall k val :: k in m ==> m[k] == result(0, f, field(k, 0), field(k, 1), field(k, 2))
+//@ o-closure-inv: when nparams(typ)=3 when noneno(derive.IsComparable) when nresults(typ)=2 [memo] m != nil && forall k val :: k in m ==> m[k].Res0 == result(0, f, field(k, 0), field(k, 1), field(k, 2)) && m[k].Res1 == result(1, f, field(k, 0), field(k, 1), field(k, 2))
+//@ o-closure-inv: when nparams(typ)=3 when noneno(derive.IsComparable) when nresults(typ)=3 [memo] m != nil && forall k val :: k in m ==> m[k].Res0 == result(0, f, field(k, 0), field(k, 1), field(k, 2)) && m[k].Res1 == result(1, f, field(k, 0), field(k, 1), field(k, 2)) && m[k].Res2 == result(2, f, field(k, 0), field(k, 1), field(k, 2))
+//@ o-closure-ensures: when nparams(typ)=3 when noneno(derive.IsComparable) [once] (in in old(m) ==> traceLen() == 0) && (!(in in old(m)) ==> traceLen() == 1 && called(0, f, param0, param1, param2)) && in in m && forall k val :: k in old(m) ==> k in m
+//@ o-closure-ensures: when nparams(typ)=3 when noneno(derive.IsComparable) when nresults(typ)=1 [results] cr0 == result(0, f, param0, param1, param2)
+//@ o-closure-ensures: when nparams(typ)=3 when noneno(derive.IsComparable) when nresults(typ)=2 [results] cr0 == result(0, f, param0, param1, param2) && cr1 == result(1, f, param0, param1, param2)
+//@ o-closure-ensures: when nparams(typ)=3 when noneno(derive.IsComparable) when nresults(typ)=3 [results] cr0 == result(0, f, param0, param1, param2) && cr1 == result(1, f, param0, param1, param2) && cr2 == result(2, f, param0, param1, param2)
+// 1 parameter(s), not all ==-comparable: buckets of (arguments, results) under the derived hash, scanned with derived Equal
+//@ o-closure-inv: when nparams(typ)=1 when anyno(derive.IsComparable) when nresults(typ)=0 [memo] m != nil && forall h uint64, p int :: h in m && 0 <= p && p < len(m[h]) ==> hash(m[h][p].in) == h
+//@ o-closure-inv: when nparams(typ)=1 when anyno(derive.IsComparable) when nresults(typ)=1 [memo] m != nil && forall h uint64, p int :: h in m && 0 <= p && p < len(m[h]) ==> hash(m[h][p].in) == h && m[h][p].out == result(0, f, m[h][p].in)
+//@ o-closure-inv: when nparams(typ)=1 when anyno(derive.IsComparable) when nresults(typ)=2 [memo] m != nil && forall h uint64, p int :: h in m && 0 <= p && p < len(m[h]) ==> hash(m[h][p].in) == h && m[h][p].out.Res0 == result(0, f, m[h][p].in) && m[h][p].out.Res1 == result(1, f, m[h][p].in)
+//@ o-closure-inv: when nparams(typ)=1 when anyno(derive.IsComparable) when nresults(typ)=3 [memo] m != nil && forall h uint64, p int :: h in m && 0 <= p && p < len(m[h]) ==> hash(m[h][p].in) == h && m[h][p].out.Res0 == result(0, f, m[h][p].in) && m[h][p].out.Res1 == result(1, f, m[h][p].in) && m[h][p].out.Res2 == result(2, f, m[h][p].in)
+//@ o-closure-ensures: when nparams(typ)=1 when anyno(derive.IsComparable) [no-call-when-seen] (exists p int :: 0 <= p && p < len(old(m)[hash(param0)]) && equal(old(m)[hash(param0)][p].in, param0)) ==> traceLen() == 0
+//@ o-closure-ensures: when nparams(typ)=1 when anyno(derive.IsComparable) [one-call-otherwise] !(exists p int :: 0 <= p && p < len(old(m)[hash(param0)]) && equal(old(m)[hash(param0)][p].in, param0)) ==> traceLen() == 1 && called(0, f, param0)
+//@ o-closure-ensures: when nparams(typ)=1 when anyno(derive.IsComparable) [stored-afterwards] (exists p int :: 0 <= p && p < len(m[hash(param0)]) && equal(m[hash(param0)][p].in, param0))
+//@ o-closure-ensures: when nparams(typ)=1 when anyno(derive.IsComparable) [entries-persist] forall y val :: (exists p int :: 0 <= p && p < len(old(m)[hash(y)]) && equal(old(m)[hash(y)][p].in, y)) ==> (exists p int :: 0 <= p && p < len(m[hash(y)]) && equal(m[hash(y)][p].in, y))
+//@ o-closure-ensures: when nparams(typ)=1 when anyno(derive.IsComparable) when nresults(typ)=1 [results-bucket] (forall a val, b val :: equal(a, b) ==> result(0, f, a) == result(0, f, b)) ==> cr0 == result(0, f, param0)
+//@ o-closure-ensures: when nparams(typ)=1 when anyno(derive.IsComparable) when nresults(typ)=2 [results-bucket] (forall a val, b val :: equal(a, b) ==> result(0, f, a) == result(0, f, b) && result(1, f, a) == result(1, f, b)) ==> cr0 == result(0, f, param0) && cr1 == result(1, f, param0)
+//@ o-closure-ensures: when nparams(typ)=1 when anyno(derive.IsComparable) when nresults(typ)=3 [results-bucket] (forall a val, b val :: equal(a, b) ==> result(0, f, a) == result(0, f, b) && result(1, f, a) == result(1, f, b) && result(2, f, a) == result(2, f, b)) ==> cr0 == result(0, f, param0) && cr1 == result(1, f, param0) && cr2 == result(2, f, param0)
+// 2 parameter(s), not all ==-comparable: buckets of (arguments, results) under the derived hash, scanned with derived Equal
+//@ o-closure-inv: when nparams(typ)=2 when anyno(derive.IsComparable) when nresults(typ)=0 [memo] m != nil && forall h uint64, p int :: h in m && 0 <= p && p < len(m[h]) ==> hash(m[h][p].in) == h
+//@ o-closure-inv: when nparams(typ)=2 when anyno(derive.IsComparable) when nresults(typ)=1 [memo] m != nil && forall h uint64, p int :: h in m && 0 <= p && p < len(m[h]) ==> hash(m[h][p].in) == h && m[h][p].out == result(0, f, m[h][p].in.Param0, m[h][p].in.Param1)
+//@ o-closure-inv: when nparams(typ)=2 when anyno(derive.IsComparable) when nresults(typ)=2 [memo] m != nil && forall h uint64, p int :: h in m && 0 <= p && p < len(m[h]) ==> hash(m[h][p].in) == h && m[h][p].out.Res0 == result(0, f, m[h][p].in.Param0, m[h][p].in.Param1) && m[h][p].out.Res1 == result(1, f, m[h][p].in.Param0, m[h][p].in.Param1)
+//@ o-closure-inv: when nparams(typ)=2 when anyno(derive.IsComparable) when nresults(typ)=3 [memo] m != nil && forall h uint64, p int :: h in m && 0 <= p && p < len(m[h]) ==> hash(m[h][p].in) == h && m[h][p].out.Res0 == result(0, f, m[h][p].in.Param0, m[h][p].in.Param1) && m[h][p].out.Res1 == result(1, f, m[h][p].in.Param0, m[h][p].in.Param1) && m[h][p].out.Res2 == result(2, f, m[h][p].in.Param0, m[h][p].in.Param1)
+//@ o-closure-ensures: when nparams(typ)=2 when anyno(derive.IsComparable) [no-call-when-seen] (exists p int :: 0 <= p && p < len(old(m)[hash(in)]) && equal(old(m)[hash(in)][p].in, in)) ==> traceLen() == 0
+//@ o-closure-ensures: when nparams(typ)=2 when anyno(derive.IsComparable) [one-call-otherwise] !(exists p int :: 0 <= p && p < len(old(m)[hash(in)]) && equal(old(m)[hash(in)][p].in, in)) ==> traceLen() == 1 && called(0, f, param0, param1)
+//@ o-closure-ensures: when nparams(typ)=2 when anyno(derive.IsComparable) [stored-afterwards] (exists p int :: 0 <= p && p < len(m[hash(in)]) && equal(m[hash(in)][p].in, in))
+//@ o-closure-ensures: when nparams(typ)=2 when anyno(derive.IsComparable) [entries-persist] forall y val :: (exists p int :: 0 <= p && p < len(old(m)[hash(y)]) && equal(old(m)[hash(y)][p].in, y)) ==> (exists p int :: 0 <= p && p < len(m[hash(y)]) && equal(m[hash(y)][p].in, y))
+//@ o-closure-ensures: when nparams(typ)=2 when anyno(derive.IsComparable) when nresults(typ)=1 [results-bucket] (forall a val, b val :: equal(a, b) ==> result(0, f, field(a, 0), field(a, 1)) == result(0, f, field(b, 0), field(b, 1))) ==> cr0 == result(0, f, param0, param1)
+//@ o-closure-ensures: when nparams(typ)=2 when anyno(derive.IsComparable) when nresults(typ)=2 [results-bucket] (forall a val, b val :: equal(a, b) ==> result(0, f, field(a, 0), field(a, 1)) == result(0, f, field(b, 0), field(b, 1)) && result(1, f, field(a, 0), field(a, 1)) == result(1, f, field(b, 0), field(b, 1))) ==> cr0 == result(0, f, param0, param1) && cr1 == result(1, f, param0, param1)
+//@ o-closure-ensures: when nparams(typ)=2 when anyno(derive.IsComparable) when nresults(typ)=3 [results-bucket] (forall a val, b val :: equal(a, b) ==> result(0, f, field(a, 0), field(a, 1)) == result(0, f, field(b, 0), field(b, 1)) && result(1, f, field(a, 0), field(a, 1)) == result(1, f, field(b, 0), field(b, 1)) && result(2, f, field(a, 0), field(a, 1)) == result(2, f, field(b, 0), field(b, 1))) ==> cr0 == result(0, f, param0, param1) && cr1 == result(1, f, param0, param1) && cr2 == result(2, f, param0, param1)
+// 3 parameter(s), not all ==-comparable: buckets of (arguments, results) under the derived hash, scanned with derived Equal
+//@ o-closure-inv: when nparams(typ)=3 when anyno(derive.IsComparable) when nresults(typ)=0 [memo] m != nil && forall h uint64, p int :: h in m && 0 <= p && p < len(m[h]) ==> hash(m[h][p].in) == h
+//@ o-closure-inv: when nparams(typ)=3 when anyno(derive.IsComparable) when nresults(typ)=1 [memo] m != nil && forall h uint64, p int :: h in m && 0 <= p && p < len(m[h]) ==> hash(m[h][p].in) == h && m[h][p].out == result(0, f, m[h][p].in.Param0, m[h][p].in.Param1, m[h][p].in.Param2)
+//@ o-closure-inv: when nparams(typ)=3 when anyno(derive.IsComparable) when nresults(typ)=2 [memo] m != nil && forall h uint64, p int :: h in m && 0 <= p && p < len(m[h]) ==> hash(m[h][p].in) == h && m[h][p].out.Res0 == result(0, f, m[h][p].in.Param0, m[h][p].in.Param1, m[h][p].in.Param2) && m[h][p].out.Res1 == result(1, f, m[h][p].in.Param0, m[h][p].in.Param1, m[h][p].in.Param2)
+//@ o-closure-inv: when nparams(typ)=3 when anyno(derive.IsComparable) when nresults(typ)=3 [memo] m != nil && forall h uint64, p int :: h in m && 0 <= p && p < len(m[h]) ==> hash(m[h][p].in) == h && m[h][p].out.Res0 == result(0, f, m[h][p].in.Param0, m[h][p].in.Param1, m[h][p].in.Param2) && m[h][p].out.Res1 == result(1, f, m[h][p].in.Param0, m[h][p].in.Param1, m[h][p].in.Param2) && m[h][p].out.Res2 == result(2, f, m[h][p].in.Param0, m[h][p].in.Param1, m[h][p].in.Param2)
+//@ o-closure-ensures: when nparams(typ)=3 when anyno(derive.IsComparable) [no-call-when-seen] (exists p int :: 0 <= p && p < len(old(m)[hash(in)]) && equal(old(m)[hash(in)][p].in, in)) ==> traceLen() == 0
+//@ o-closure-ensures: when nparams(typ)=3 when anyno(derive.IsComparable) [one-call-otherwise] !(exists p int :: 0 <= p && p < len(old(m)[hash(in)]) && equal(old(m)[hash(in)][p].in, in)) ==> traceLen() == 1 && called(0, f, param0, param1, param2)
+//@ o-closure-ensures: when nparams(typ)=3 when anyno(derive.IsComparable) [stored-afterwards] (exists p int :: 0 <= p && p < len(m[hash(in)]) && equal(m[hash(in)][p].in, in))
+//@ o-closure-ensures: when nparams(typ)=3 when anyno(derive.IsComparable) [entries-persist] forall y val :: (exists p int :: 0 <= p && p < len(old(m)[hash(y)]) && equal(old(m)[hash(y)][p].in, y)) ==> (exists p int :: 0 <= p && p < len(m[hash(y)]) && equal(m[hash(y)][p].in, y))
+//@ o-closure-ensures: when nparams(typ)=3 when anyno(derive.IsComparable) when nresults(typ)=1 [results-bucket] (forall a val, b val :: equal(a, b) ==> result(0, f, field(a, 0), field(a, 1), field(a, 2)) == result(0, f, field(b, 0), field(b, 1), field(b, 2))) ==> cr0 == result(0, f, param0, param1, param2)
+//@ o-closure-ensures: when nparams(typ)=3 when anyno(derive.IsComparable) when nresults(typ)=2 [results-bucket] (forall a val, b val :: equal(a, b) ==> result(0, f, field(a, 0), field(a, 1), field(a, 2)) == result(0, f, field(b, 0), field(b, 1), field(b, 2)) && result(1, f, field(a, 0), field(a, 1), field(a, 2)) == result(1, f, field(b, 0), field(b, 1), field(b, 2))) ==> cr0 == result(0, f, param0, param1, param2) && cr1 == result(1, f, param0, param1, param2)
+//@ o-closure-ensures: when nparams(typ)=3 when anyno(derive.IsComparable) when nresults(typ)=3 [results-bucket] (forall a val, b val :: equal(a, b) ==> result(0, f, field(a, 0), field(a, 1), field(a, 2)) == result(0, f, field(b, 0), field(b, 1), field(b, 2)) && result(1, f, field(a, 0), field(a, 1), field(a, 2)) == result(1, f, field(b, 0), field(b, 1), field(b, 2)) && result(2, f, field(a, 0), field(a, 1), field(a, 2)) == result(2, f, field(b, 0), field(b, 1), field(b, 2))) ==> cr0 == result(0, f, param0, param1, param2) && cr1 == result(1, f, param0, param1, param2) && cr2 == result(2, f, param0, param1, param2)
+//@ o-loop: when nparams(typ)=1 when anyno(derive.IsComparable) 1: invariant traceLen() == 0 && forall p int :: 0 <= p && p < $i ==> !equal(vs[p].in, param0)
+//@ o-loop: when nparams(typ)=2 when anyno(derive.IsComparable) 1: invariant traceLen() == 0 && forall p int :: 0 <= p && p < $i ==> !equal(vs[p].in, in)
+//@ o-loop: when nparams(typ)=3 when anyno(derive.IsComparable) 1: invariant traceLen() == 0 && forall p int :: 0 <= p && p < $i ==> !equal(vs[p].in, in)
